@@ -130,6 +130,8 @@ pub fn run(r: &mut StdRng, shape: &Value) -> (Value, String) {
             "short" => set_tag(&mut tags, "mls_ciphersuite", tv(&["mls_ciphersuite", ["0x1", "0x001", "1", "0x00001"].choose(r).unwrap()])),
             "nothex" => set_tag(&mut tags, "mls_ciphersuite", tv(&["mls_ciphersuite", ["0x00zz", "0x000g", "0x 001"].choose(r).unwrap()])),
             "noprefix" => set_tag(&mut tags, "mls_ciphersuite", tv(&["mls_ciphersuite", ["000001", "0X0001", "x00001"].choose(r).unwrap()])),
+            // the right number of BYTES, but characters that straddle the offsets a byte-indexed parser cuts at
+            "utf8" => set_tag(&mut tags, "mls_ciphersuite", tv(&["mls_ciphersuite", ["\u{20ac}\u{20ac}", "0\u{e9}001", "0\u{20ac}01", "\u{1f600}01", "0x0\u{20ac}", "0x\u{e9}\u{e9}"].choose(r).unwrap()])),
             _ => {}
         }
     }
@@ -144,6 +146,7 @@ pub fn run(r: &mut StdRng, shape: &Value) -> (Value, String) {
             "nof2ee" => set_tag(&mut tags, "mls_extensions", tv(&["mls_extensions", "0x000a", "0xf2ef"])),
             "no000a" => set_tag(&mut tags, "mls_extensions", tv(&["mls_extensions", "0xf2ee"])),
             "malformed" => set_tag(&mut tags, "mls_extensions", tv(&["mls_extensions", "0x000a", ["f2ee", "0xf2eeX", "0xf2e", "0xf2eg", ""].choose(r).unwrap()])),
+            "utf8" => set_tag(&mut tags, "mls_extensions", tv(&["mls_extensions", "0x000a", ["\u{20ac}\u{20ac}", "0\u{e9}2ee", "0x\u{e9}\u{e9}", "\u{1f600}ee", "0xf\u{20ac}"].choose(r).unwrap()])),
             _ => {}
         }
     }
@@ -172,6 +175,7 @@ pub fn run(r: &mut StdRng, shape: &Value) -> (Value, String) {
             "upper" => set_tag(&mut tags, "i", vec!["i".into(), i_val.to_uppercase()]),
             "empty" => set_tag(&mut tags, "i", tv(&["i", ""])),
             "nothex" => set_tag(&mut tags, "i", vec!["i".into(), format!("zz{}", &i_val[2..])]),
+            "utf8" => set_tag(&mut tags, "i", vec!["i".into(), format!("{}{}", ["\u{e9}", "\u{20ac}\u{e9}\u{e9}\u{e9}", "\u{1f600}"].choose(r).unwrap(), &i_val[2..])]),
             "mismatch" => set_tag(&mut tags, "i", vec!["i".into(), wrong_i]),
             "short" => set_tag(&mut tags, "i", vec!["i".into(), i_val[..62].to_string()]),
             "twovalues" => set_tag(&mut tags, "i", vec!["i".into(), i_val.clone(), if r.gen_bool(0.5) { i_val.clone() } else { wrong_i }]),
